@@ -31,6 +31,15 @@ func decEqual(d *decNode, r *rec) bool {
 // encMatches (native side): the real encoder's bytes are decoded with the standard decoder of the format
 // (one JSON value per line, one YAML document per root, a single TOML document) and compared with the records.
 func encMatches(kind int, out string, want []*rec) bool {
+	return encMatchesOrder(kind, out, want, true)
+}
+
+// encMatchesAnyOrder: as encMatches, the records may come in any order (massive mode).
+func encMatchesAnyOrder(kind int, out string, want []*rec) bool {
+	return encMatchesOrder(kind, out, want, false)
+}
+
+func encMatchesOrder(kind int, out string, want []*rec, ordered bool) bool {
 	var got []*decNode
 	switch kind {
 	case encJSON:
@@ -72,8 +81,24 @@ func encMatches(kind int, out string, want []*rec) bool {
 	if len(got) != len(want) {
 		return false
 	}
-	for i := range want {
-		if !decEqual(got[i], want[i]) {
+	if ordered {
+		for i := range want {
+			if !decEqual(got[i], want[i]) {
+				return false
+			}
+		}
+		return true
+	}
+	used := make([]bool, len(got))
+	for _, w := range want {
+		found := false
+		for i, g := range got {
+			if !used[i] && decEqual(g, w) {
+				used[i], found = true, true
+				break
+			}
+		}
+		if !found {
 			return false
 		}
 	}
